@@ -7,7 +7,10 @@ from . import common as C
 from .oracle_random import injected_randbelow
 
 PROP = "C10"
-MODEL = "RowHistory"
+MODEL = "C10Cases"
+COQ_IMPORTS = ["From SFV Require Import RandRange RowHistory Interp."]
+CHECK_FN = "check_kcase"
+SKIPPED_FN = "kcase_unsupported"
 SHARD = 250
 CASE_TIMEOUT = 40
 MARK = "Zmark"
@@ -236,7 +239,7 @@ def run_recipe(case):
     text = yaml.safe_dump(case["stmts"], sort_keys=False)
     ks = case.get("ks") or [case["reps"]]
     cont = None
-    with injected_randbelow(chooser=chooser):
+    with injected_randbelow(chooser=chooser) as rec:
         for i, k in enumerate(ks):
             app = SnowfakeryApplication(StoppingCriteria("__REPS__", k))
             app.echo = lambda *a, **kw: None
@@ -247,11 +250,11 @@ def run_recipe(case):
             except BaseException as e:
                 if type(e).__name__ == "_CaseTimeout":
                     raise
-                return {"err": C.canon_exc(e), "msg": str(e)[:200], "rows": cap.rows}
+                return {"err": C.canon_exc(e), "msg": str(e)[:200], "rows": cap.rows, "draws": list(rec.values)}
             cont = out_cont.getvalue() if out_cont else None
             if cont is not None:
                 cap.rows.append(["@run-boundary", []])     # not a row: the next run starts here
-    return {"ok": cap.rows}
+    return {"ok": cap.rows, "draws": list(rec.values)}
 
 
 def run_impl(case):
@@ -286,7 +289,58 @@ def _obs_coq(o):
     return f"(OErr {C.cerr(o[1])})"
 
 
+def to_sfcore(case):
+    """the recipe of an end-to-end case as an SF-core AST (harness/sfcore.py), or None when it uses
+    `unique` / `parent`, which the interpreter model does not cover"""
+    def fdef(v):
+        if isinstance(v, str):
+            return ["str", v]
+        if isinstance(v, int):
+            return ["int", v]
+        if isinstance(v, list):
+            return ["nested", tpl(v[0])]
+        if isinstance(v, dict) and "reference" in v:
+            return ["ref", v["reference"]]
+        if isinstance(v, dict) and "random_reference" in v:
+            if not isinstance(v["random_reference"], str):
+                raise ValueError("unique / parent")
+            return ["randref", v["random_reference"]]
+        raise ValueError(repr(v))
+
+    def tpl(t):
+        return {"table": t["object"], "nick": t.get("nickname"), "once": bool(t.get("just_once")),
+                "count": (["int", t["count"]] if "count" in t else None),
+                "fields": [[k, fdef(v)] for k, v in (t.get("fields") or {}).items()],
+                "friends": [["obj", tpl(f)] for f in t.get("friends", [])]}
+    try:
+        return {"version": 2, "options": [], "stmts": [["obj", tpl(t)] for t in case["stmts"]]}
+    except ValueError:
+        return None
+
+
 def coq_case(case, obs):
+    if case["kind"] == "recipe":
+        r = to_sfcore(case)
+        if r is None or "draws" not in obs:
+            return None
+        from . import sfcore as S
+        rows = obs.get("ok", obs.get("rows", []))
+        runs, cur = [], []
+        for row in rows:
+            if row[0] == "@run-boundary":
+                runs.append(cur)
+                cur = []
+            else:
+                cur.append(row)
+        runs.append(cur)
+        ks = case.get("ks") or [case["reps"]]
+        if "ok" in obs:
+            if len(runs) != len(ks) or not all(S.comparable(x) for x in runs):
+                return None
+            exp = "(Ok " + C.clist(S.rows_coq(x) for x in runs) + ")"
+        else:
+            exp = f"(Err {C.cerr(obs['err'])})"
+        return f"KRecipe (CHist PFull {S.recipe_coq(r, obs['draws'])} {C.clist(C.cnat(k) for k in ks)} {exp})"
     if case["kind"] != "script" or obs.get("aborted"):
         return None
     counters = C.clist(C.cpair(C.cstr(k), C.cz(v)) for k, v in case["counters"])
@@ -294,7 +348,7 @@ def coq_case(case, obs):
     u = obs["urr"]
     oracle = C.clist(C.cpair(C.cz(u[i]), C.cz(u[i + 1])) for i in range(0, len(u) - 1, 2))
     exp = C.clist(_obs_coq(o) for o in obs["obs"])
-    return f"CScriptH {counters} {names} {oracle} {_ops_coq(case, obs)} {exp}"
+    return f"KScript (CScriptH {counters} {names} {oracle} {_ops_coq(case, obs)} {exp})"
 
 
 # ------------------------------------------------------------------ property oracle
